@@ -187,6 +187,7 @@ fn run_rows<'a, T: TestDriver<Error = DriverError>>(
     max_rows: usize,
     show_vars: bool,
     stop_on_err: bool,
+    step: usize,
 ) {
     let flush = |log: &Rc<RefCell<Vec<String>>>| {
         for l in log.borrow_mut().drain(..) {
@@ -220,7 +221,8 @@ fn run_rows<'a, T: TestDriver<Error = DriverError>>(
             println!("TRUNCATED {n}");
             break;
         }
-        let item = catch_unwind(AssertUnwindSafe(|| it.next()));
+        // step > 0: the consumer steps over rows with the standard adaptor machinery (Iterator::nth), as skip / step_by do
+        let item = catch_unwind(AssertUnwindSafe(|| if step > 0 { it.nth(step) } else { it.next() }));
         flush(log);
         match item {
             Err(e) => {
@@ -312,6 +314,7 @@ fn main() {
     let mut pre_layouts: Vec<Vec<String>> = vec![];
     let mut pre_digs: Vec<(String, Option<String>)> = vec![];
     let mut set_bits: Vec<(String, usize)> = vec![];
+    let mut step = 0usize;
     for line in text.lines() {
         let mut w = line.split_whitespace();
         let Some(cmd) = w.next() else { continue };
@@ -362,6 +365,7 @@ fn main() {
             "PRE_LAYOUT" => pre_layouts.push(rest.iter().map(|s| unhex(s)).collect()),
             "PRE_DIG" => pre_digs.push((unhex(rest[0]), rest.get(1).map(|s| s.to_string()))),
             "SET_BITS" => set_bits.push((unhex(rest[0]), rest[1].parse().unwrap())),
+            "STEP" => step = rest[0].parse().unwrap(),
             _ => panic!("unknown scenario line {line}"),
         }
     }
@@ -644,10 +648,10 @@ fn main() {
     };
     if script.override_write {
         let mut drv = OverridingDriver(d);
-        run_rows(&test_case, &mut drv, &log, max_rows, show_vars, stop_on_err);
+        run_rows(&test_case, &mut drv, &log, max_rows, show_vars, stop_on_err, step);
     } else {
         let mut drv = PlainDriver(d);
-        run_rows(&test_case, &mut drv, &log, max_rows, show_vars, stop_on_err);
+        run_rows(&test_case, &mut drv, &log, max_rows, show_vars, stop_on_err, step);
     }
 }
 
